@@ -88,7 +88,17 @@ MeshClauses(r) ==
       RenumberInvariant    |-> Le(r.renum, 1, 10),
       CachedEqualsFresh    |-> r.cached ]
 
+\* a grid whose source stores float32 coordinates: every call returns (both inputs), and the areas
+\* computed from the STORED coordinates are those of the float64-built grid holding the same values, to
+\* single precision (q).  The other input uses coordinates the grid derives in the source's precision
+\* (6e-8 in position, i.e. up to 5e-6 of the area of a 0.7 degree face -- observed): qd is only held to a
+\* gross 1e-4, which is not a tolerance of the property but a guard against a wrong value.
+F32Clauses(r) ==
+    [ NonNegative           |-> r.raised \/ ~r.neg,
+      SinglePrecisionSource |-> ~r.raised /\ Le(r.q, 1, 6) /\ Le(r.qd, 1, 4) ]
+
 Clauses(r) == CASE r.kind = "face" -> FaceClauses(r)
+                [] r.kind = "f32" -> F32Clauses(r)
                 [] r.kind = "orbit" -> OrbitClauses(r)
                 [] r.kind = "mesh" -> MeshClauses(r)
 Failed(r) == LET c == Clauses(r) IN { k \in DOMAIN c : ~c[k] }
@@ -115,5 +125,9 @@ SelfTest ==
        /\ Failed([ good EXCEPT !.g = << Q(Cap, 900), Q(5, 1), Q(Cap, 101), Q(5000, 1) >> ]) = {"HigherOrdersWithinClass"}
        /\ Failed([ good EXCEPT !.cx = Q(Cap, 1000000), !.czero = TRUE ]) = {"CartesianInputAgrees"}
        /\ Failed([ good EXCEPT !.neg = TRUE ]) = {"NonNegative"}
+       /\ Failed([ kind |-> "f32", id |-> "y", raised |-> TRUE, neg |-> FALSE, q |-> Q(0, 0), qd |-> Q(0, 0) ]) = {"SinglePrecisionSource"}
+       /\ Failed([ kind |-> "f32", id |-> "y", raised |-> FALSE, neg |-> FALSE, q |-> Q(Cap, 2), qd |-> Q(0, 0) ]) = {"SinglePrecisionSource"}
+       /\ Failed([ kind |-> "f32", id |-> "y", raised |-> FALSE, neg |-> FALSE, q |-> Q(9000000, 1), qd |-> Q(Cap, 100) ]) = {}
+       /\ Failed([ kind |-> "f32", id |-> "y", raised |-> FALSE, neg |-> FALSE, q |-> Q(0, 0), qd |-> Q(Cap, 101) ]) = {"SinglePrecisionSource"}
 ASSUME SelfTest
 =============================================================================
